@@ -157,7 +157,7 @@ func VH_C13_nest() {
 	vAssert(ok && s == want, "nested-template-value")
 }
 
-var vC13VarHoles = []string{"arr", "dct", "[arr, 3]", "arr[0]", "sv", "iv", "arr + [iv]", "{'k': arr}"}
+var vC13VarHoles = []string{"arr", "dct", "[arr, 3]", "arr[0]", "sv", "iv", "arr + [iv]", "{'k': arr}", "f1", "f2", "f3 * 2", "[f1, f2]", "null", "fn1"}
 
 func vC13VarVM(x, y int64) *Context {
 	vm := vNewVM()
@@ -167,10 +167,14 @@ func vC13VarVM(x, y int64) *Context {
 	vm.Attrs.Store("dct", NewDictVal(m).V())
 	vm.Attrs.Store("sv", NewStrVal("s t"))
 	vm.Attrs.Store("iv", NewIntVal(IntType(y)))
+	vm.Attrs.Store("f1", NewFloatVal(0.00001))
+	vm.Attrs.Store("f2", NewFloatVal(1e21))
+	vm.Attrs.Store("f3", NewFloatVal(-1.25))
+	vm.Attrs.Store("fn1", NewFunctionValRaw(&FunctionData{Expr: "return 1", Name: "fn1"}))
 	return vm
 }
 
-//vh:prop=C13 tiers=quick,thorough sigkeys=h1,h2,h3 overrides=formatFriendlyError budget_s=900 quick:P.three=0 thorough:P.three=1 bounds="templates < {e1} | {e2} > (thorough: a third hole {% e3 %}) in both template styles, holes from 8 expressions over variables holding an array, a dict, a string and an integer (integers are 64-bit symbols), all pairs (thorough: all triples) including the same container shown twice: the value is the concatenation of the segments and of each hole's string form as obtained by evaluating the hole alone"
+//vh:prop=C13 tiers=quick,thorough sigkeys=h1,h2,h3 overrides=formatFriendlyError budget_s=900 quick:P.three=0 thorough:P.three=1 bounds="templates < {e1} | {e2} > (thorough: a third hole {% e3 %}) in both template styles, holes from 14 expressions over variables holding an array, a dict, a string, an integer, floats of very small and very large magnitude, null and a function (integers are 64-bit symbols), all pairs (thorough: all triples) including the same container shown twice: the value is the concatenation of the segments and of each hole's string form as obtained by evaluating the hole alone"
 func VH_C13_holes() {
 	q := string(vC13Delims[2+vChoice("style", 2)])
 	x, y := vInt64("x"), vInt64("y")
